@@ -550,6 +550,68 @@ func init() {
 		w.expect("C03", "A3-renewal-new-contract-swapped", verr, ok, false, fmt.Sprintf("after both parties signed the renewal of %v into a 10/10 SC contract, the new contract is exchanged for a 1/19 SC contract that carries their own valid contract signatures; the renewal signatures are kept", c.id))
 	}})
 
+	// ---- C03: a renewal that follows a key rotation inside the same block
+	registerRows("C03", probeRow{"A3-rotation-then-renewal", func(w *World, n *Node) {
+		sc := n.fork()
+		if !sc.v2ok() {
+			return
+		}
+		c := sc.pickLive(true, func(c *Contract) bool {
+			fc := sc.store.V2FC[c.id].V2FileContract
+			return fc.ProofHeight > sc.child()+1 && fc.RevisionNumber < types.MaxRevisionNumber-4
+		})
+		funder, okf := pickSC(w, sc.ownedSC(false, true))
+		if c == nil || !okf {
+			return
+		}
+		e := sc.store.V2FC[c.id]
+		cur := e.V2FileContract
+		other := w.wallets[len(w.wallets)-1]
+		if other == c.renter {
+			other = w.wallets[0]
+		}
+		newKey := other.keys[2]
+		if newKey.PublicKey() == cur.RenterPublicKey {
+			return
+		}
+		r1 := cur
+		r1.RevisionNumber++
+		r1.RenterPublicKey = newKey.PublicKey()
+		w.signContractV2(sc.s, &r1, c.renterKey(), c.hostKey())
+		t1 := types.V2Transaction{FileContractRevisions: []types.V2FileContractRevision{{Parent: e.Copy(), Revision: r1}}}
+		renewBy := func(renter types.PrivateKey) (types.V2Transaction, bool) {
+			nc := r1
+			nc.RenterPublicKey = renter.PublicKey()
+			nc.RevisionNumber = 0
+			nc.ProofHeight = sc.child() + 30
+			nc.ExpirationHeight = nc.ProofHeight + 2
+			nc.RenterOutput.Value, nc.HostOutput.Value, nc.MissedHostValue, nc.TotalCollateral = types.Siacoins(1), types.ZeroCurrency, types.ZeroCurrency, types.ZeroCurrency
+			ren := &types.V2FileContractRenewal{NewContract: nc, FinalRenterOutput: r1.RenterOutput, FinalHostOutput: r1.HostOutput}
+			w.signContractV2(sc.s, &ren.NewContract, renter, c.hostKey())
+			h := sc.s.RenewalSigHash(*ren)
+			ren.RenterSignature, ren.HostSignature = renter.SignHash(h), c.hostKey().SignHash(h)
+			cost := nc.RenterOutput.Value.Add(sc.s.V2FileContractTax(nc))
+			if funder.SiacoinOutput.Value.Cmp(cost) < 0 {
+				return types.V2Transaction{}, false
+			}
+			t2 := types.V2Transaction{FileContractResolutions: []types.V2FileContractResolution{{Parent: e.Copy(), Resolution: ren}},
+				SiacoinInputs: []types.V2SiacoinInput{{Parent: funder.Copy()}}}
+			if ch := funder.SiacoinOutput.Value.Sub(cost); !ch.IsZero() {
+				t2.SiacoinOutputs = []types.SiacoinOutput{{Value: ch, Address: funder.SiacoinOutput.Address}}
+			}
+			return t2, w.signAllV2(sc.s, &t2)
+		}
+		what := fmt.Sprintf("the first transaction of the block revises v2 contract %v, rotating the renter key; the second renews it", c.id)
+		if t2, ok := renewBy(c.renterKey()); ok {
+			verr, ok := sc.offer(nil, []types.V2Transaction{t1, t2}, offerOpt{})
+			w.expect("C03", "A3-rotation-renewal-old-key", verr, ok, false, what+", signed by (and keeping) the renter key that was rotated out")
+		}
+		if t2, ok := renewBy(newKey); ok {
+			verr, ok := sc.offer(nil, []types.V2Transaction{t1, t2}, offerOpt{})
+			w.expect("C03", "A3-rotation-renewal-new-key", verr, ok, true, what+", signed by the renter key the contract now names")
+		}
+	}})
+
 	// ---- C04: leaf-index bits above the tree, a chain index whose block ID is altered, a contract that never existed
 	registerRows("C04", probeRow{"M1-high-leaf-index-bits", func(w *World, n *Node) {
 		sc := n.fork()
